@@ -20,6 +20,7 @@ Proof.
   intros P OK DK. constructor.
   - exact conc_in_whole.
   - intros T. apply repeat_length.
+  - apply (wo_out0 P OK).
   - apply (w_mget_sum P OK).
   - apply (w_mget_live P OK).
   - apply (w_mget_threads P OK).
